@@ -25,9 +25,25 @@ def run_case(case, rng):
     from mon.gen import build as Bd
 
     n_max = 8 if case.tier == "thorough" and rng.random() < 0.3 else 5
-    gamma = rng.choice([0.5, 0.9, 0.95])
-    sp = G.random_spec(rng, "proper", n_max=n_max, a_max=3, uniform_actions=True, allow_implicit=False,
-                       gamma=gamma, allow_dup_actions=False)
+    gamma = rng.choice([0.5, 0.9, 0.95, 0.99])
+    sticky = gamma == 0.99 and rng.random() < 0.7
+    sp = G.random_spec(rng, "proper", n_max=(3 if sticky else n_max), a_max=(2 if sticky else 3), uniform_actions=True,
+                       allow_implicit=False, gamma=gamma, allow_dup_actions=False,
+                       reward_sign=("neg" if sticky else None), near_dup_actions=(rng.random() < 0.3),
+                       reward_scale=rng.choice([1.0, 1.0, 1000.0]))
+    if sticky:
+        # cost-only, nearly closed dynamics at gamma=.99: the known-pair values lie far below the optimistic one,
+        # so R-MAX's inner value iteration needs thousands of sweeps to meet its tolerance
+        for (s_, a_), lst in list(sp.P.items()):
+            if s_ in sp.flag:
+                continue
+            pos = {t: i for i, t in enumerate(sp.states)}
+            others = [t for t, q in lst if q > 0 and pos[t] > pos[s_]]      # strictly "up": keeps the MDP proper
+            if others:
+                sp.P[(s_, a_)] = [(s_, 0.5), (others[0], 0.5)]
+                sp.kind[(s_, a_)] = "dict"
+                sp.R[(s_, a_, s_)] = -1.0 * (sp.meta.get("reward_scale") or 1.0)
+                sp.R[(s_, a_, others[0])] = -1.0 * (sp.meta.get("reward_scale") or 1.0)
     G.restrict_to_closure(sp, rng)
     sp.init = [(s, p) for s, p in sp.init if p > 0]
     mdp = Bd.build(sp, rng.choice(["subclass", "quicktabular"]))
@@ -38,6 +54,8 @@ def run_case(case, rng):
     rmax = float(np.max(mdp.reward_matrix))
     m = rng.randint(1, 5)
     episodes = rng.randint(1, 40 if case.tier == "thorough" else 20)
+    if sticky:
+        m, episodes = rng.randint(1, 2), rng.randint(4, 10)
     tolv = rng.choice([1e-3, 1e-6])
     seed = rng.choice([0, 1, 7, rng.randrange(2 ** 31)])
     case.family = "proper-uniform"
